@@ -24,6 +24,12 @@ CHECKS = {
          "functions on every row and on uint32-range pairs via rank compression. The chain-level rule is validated by IsHeaderContradictingChain probes in the LiskBFT trace.",
          "Comparison-only structure of the contradiction spec justifies rank compression; receive times are placed mid-slot with 1000 s slots.",
          "TLC-enumerated truth tables of a TLA+ transcription of LIP-0014 compared with the real functions", "DESIGN.md section 4 C07"),
+ "C12": ("model_checking",
+         "Trace validation (monitor form): a seeded driver runs operation sequences (set/del/get/has/range/iterate with limits and directions through several nested prefix views, "
+         "snapshot/restore/delete-snapshot, commit, revert, raw db and snapshot-reader scans, empty values) on the real diffdb.Database over in-memory pebble and logs every call with its result; "
+         "TLC replays the log on StagedStore.tla whose reads are defined as the same read on db-with-staged-ops-applied and compares every result, the db dump after Commit with the model and after RevertDiff with the previous contents.",
+         "Keys over a 4-letter byte alphabet up to length 5, values empty or one byte; limit 0 not generated; operation sequences are sampled (seeded).",
+         "TLA+ trace validation (TLC monitor) of recorded calls on the real staged store", "DESIGN.md section 4 C12"),
 }
 NA_REASON = "check not built yet in this round (planned, see DESIGN.md section 4); not claimed until its TLA+ specification and binding exist"
 
